@@ -3,6 +3,7 @@ package main
 import (
 	"io"
 	"os"
+	"strings"
 	"runtime"
 	"runtime/debug"
 	"syscall"
@@ -22,7 +23,16 @@ func init() { runtime.LockOSThread() }
 // cbMode says what the callback does with an error returned by w.Write: "p" returns it, "s" swallows it and stops
 // (returns nil), "k" swallows it and keeps writing the remaining pieces (returns nil) — the last two rely on the
 // final Flush to report the write error, as fmt.Fprintf- or encoder-style callbacks do.
+// A "!" appended to cbMode makes the callback's own stop after cbFail pieces a panic instead of a returned error.
 func perform(kind, dst string, mode uint32, pieces []int, cbFail int, cbMode string, after func(i int)) error {
+	stopPanic := strings.HasSuffix(cbMode, "!")
+	cbMode = strings.TrimSuffix(cbMode, "!")
+	stop := func() error {
+		if stopPanic {
+			panic(errCB)
+		}
+		return errCB
+	}
 	switch kind {
 	case "baseline": // plain os calls, independent of the code under test: teaches the tracer names and offsets
 		f, err := os.OpenFile(dst+".b", os.O_RDWR|os.O_CREATE|os.O_EXCL, os.FileMode(mode))
@@ -44,7 +54,7 @@ func perform(kind, dst string, mode uint32, pieces []int, cbFail int, cbMode str
 			off := 0
 			for i, n := range pieces {
 				if i == cbFail {
-					return errCB
+					return stop()
 				}
 				if _, err := w.Write(genBytes(off, n, seedNew)); err != nil {
 					switch cbMode {
@@ -63,7 +73,7 @@ func perform(kind, dst string, mode uint32, pieces []int, cbFail int, cbMode str
 				}
 			}
 			if cbFail >= len(pieces) {
-				return errCB
+				return stop()
 			}
 			return nil
 		}, os.FileMode(mode))
@@ -94,7 +104,8 @@ func perform(kind, dst string, mode uint32, pieces []int, cbFail int, cbMode str
 	panic("bad kind " + kind)
 }
 
-// childMain: child <umask> <mode> <dst> <kind> <pieces> <cbFail> <cbMode>; prints the result code with one write(2).
+// childMain: child <umask> <mode> <dst> <kind> <pieces> <cbFail> <cbMode>; prints the result code with one write(2)
+// (nothing if the callback panics: the process then dies with exit status 2).
 func childMain() {
 	debug.SetGCPercent(-1)
 	a := os.Args[2:]
